@@ -210,7 +210,7 @@ func (C02) Gen(rt *rapid.T, tier string) any {
 		// file, and a snapshot parent graph (chain, cycle, self-parent, missing parent, long chain) in
 		// the overlayfs snapshotter's metadata.db
 		if mode == "real" && has(enabled, "containers/containerd") {
-			n := oneOf(rt, []int{1, 2, 3, 5, 8, 300}, "cg.n")
+			n := oneOf(rt, []int{1, 2, 3, 5, 8, 40}, "cg.n")
 			shape := oneOf(rt, []string{"chain", "chain", "self", "cycle", "missing", "random"}, "cg.shape")
 			name := func(k int) string { return fmt.Sprintf("default/%d/key%d", k+1, k) }
 			var snaps []BoltSnapshot
